@@ -99,6 +99,20 @@ HANDLE_PROBES = [
                                   "function ring() -> void { Link a = new Link(); Link b = new Link(); a.held = new Cell(); a.peer = b; b.peer = a; }\n"
                                   "function main() -> void { ring(); int s = 0; for (int i = 0; i < 40; i = i + 1) { Pad t = new Pad(i); s = s + t.v; } "
                                   "Cell first = new Cell(); Cell second = new Cell(); x(first.q); bit r = measure second.q; echo(r); bit u = measure first.q; }\n", "0"),
+    # declarations made while an owner is being destroyed (in its destructor: a helper object owning a qubit, a local qubit, a local
+    # register): the dying object's own qubits are still its own
+    ("dtor_helper_object", "class Helper { public qubit h; public constructor() -> Helper = default; }\n"
+                           "class Owner { public qubit q; public constructor() -> Owner = default;\n"
+                           "  public destructor() -> void { Helper w = new Helper(); x(w.h); bit r = measure this.q; echo(r); bit s = measure w.h; } }\n"
+                           "function main() -> void { { Owner o = new Owner(); } }\n", "0"),
+    ("dtor_local_qubit", "class Owner { public qubit[2] r; public constructor() -> Owner = default;\n"
+                         "  public destructor() -> void { qubit f0; qubit[2] f1; x(f0); x(f1[0]); x(f1[1]); bit a = measure r[0]; bit b = measure r[1]; "
+                         "if (a == 1b || b == 1b) { echo(1); } else { echo(0); } measure f0; measure f1; } }\n"
+                         "function main() -> void { Owner o = new Owner(); destroy o; }\n", "0"),
+    ("dtor_helper_after_recycle", "class Helper { public qubit h; public constructor() -> Helper = default; }\n"
+                                  "class Owner { public qubit q; public constructor() -> Owner = default;\n"
+                                  "  public destructor() -> void { Helper w = new Helper(); Helper w2 = new Helper(); x(w.h); x(w2.h); bit r = measure q; echo(r); } }\n"
+                                  "function main() -> void { { Helper pre = new Helper(); } { Owner o = new Owner(); } }\n", "0"),
     # controls: ONE declaration reached by two names must be shared
     ("param_is_same_qubit", "function f(qubit p) -> void { x(p); }\nfunction main() -> void { qubit a; f(a); bit r = measure a; echo(r); }\n", "1"),
     ("field_via_two_refs", QCLS + "function main() -> void { Q o = new Q(); Q o2 = o; x(o.q); bit r = measure o2.q; echo(r); }\n", "1"),
